@@ -872,7 +872,7 @@ def check_output_requests(ctx, d, bases, res):
         effective += 1 if changed else 0
         tables += 1 if tchanged else 0
         for kind, where, xl, yl in tbad[:2]:
-            key = f'run-output:{kind}:{o["name"]}'
+            key = f'run-output:{kind}:{o["name"]}:{where.split(": column")[0]}'
             if key not in seenk:
                 seenk.add(key)
                 ctx.violate('property', key, f'with "Units:{o["name"]}, {x["u"]}" the table {where} shows "{yl}" where it showed "{xl}": ' +
